@@ -22,8 +22,11 @@ package main
 import (
 	"fmt"
 	"math/rand"
+	"net"
 	"reflect"
 	"strings"
+
+	"github.com/contiv/libOpenflow/protocol"
 )
 
 type swExp struct{ items []string }
@@ -1130,6 +1133,57 @@ func init() {
 				back = append(back, make([]byte, 1+g.r.Intn(40))...) // BOOTP padding behind the end option
 			}
 			c.run("pkrw", "p.DHCP", hx(back), len(back), len(x.b), e.String("p.DHCP"))
+		}
+	})
+	// dhcpsz <seed>: a DHCP message built the way an application builds one (NewDHCP, exported fields, options appended to
+	// Options — pad and end options anywhere, also options behind an end option, e.g. padding to the BOOTP minimum); the size
+	// it reports must be the number of bytes Read produces into a large buffer (C06 on a value only the API builds)
+	runners["dhcpsz"] = func(a []string) string {
+		r := rand.New(rand.NewSource(int64(atoi(a[0]))))
+		d, err := protocol.NewDHCP(uint32(r.Int63()), protocol.DHCPOperation(1+r.Intn(2)), 1)
+		if err != nil {
+			return "err"
+		}
+		d.HardwareLen = 6
+		d.ClientHWAddr = net.HardwareAddr{2, 0, 0, byte(r.Intn(256)), byte(r.Intn(256)), 1}
+		nopt := r.Intn(7)
+		for k := 0; k < nopt; k++ {
+			switch r.Intn(6) {
+			case 0:
+				d.Options = append(d.Options, protocol.DHCPNewOption(0, nil))
+			case 1:
+				d.Options = append(d.Options, protocol.DHCPNewOption(255, nil))
+			case 2:
+				d.Options = append(d.Options, protocol.DHCPNewOption(53, []byte{byte(1 + r.Intn(8))}))
+			default:
+				l := r.Intn(20)
+				b := make([]byte, l)
+				r.Read(b)
+				d.Options = append(d.Options, protocol.DHCPNewOption(byte(1+r.Intn(200)), b))
+			}
+		}
+		if r.Intn(3) == 0 { // padding behind the end option up to a round size
+			d.Options = append(d.Options, protocol.DHCPNewOption(255, nil))
+			for k := 1 + r.Intn(12); k > 0; k-- {
+				d.Options = append(d.Options, protocol.DHCPNewOption(0, nil))
+			}
+		}
+		p := reflect.ValueOf(d)
+		l := callLen(p)
+		buf := make([]byte, 8192)
+		n, rerr := d.Read(buf)
+		if rerr != nil {
+			return dumpV(p) + " " + l + " err"
+		}
+		return dumpV(p) + " " + l + " " + hx(buf[:n])
+	}
+	ofGens = append(ofGens, func(c *Ctx) {
+		n := 150
+		if c.thorough() {
+			n = 3000
+		}
+		for i := 0; i < n; i++ {
+			c.run("dhcpsz", c.rng.Intn(1<<30))
 		}
 	})
 	// embedw <kind> <hex backing> <len>: the value decoded from a conformant wire image is self-consistent; its encoding
